@@ -294,9 +294,42 @@ theorem claimable_amount_deadline (s : Mpp) (op : Op) (a k d : Nat)
       simp only [minCltv, List.min?_eq_none_iff, List.map_eq_nil_iff] at hmin
       exact completed_ne_nil _ _ hmin
     | some m =>
-      rw [hmin] at hd
+      rw [eventClaimDeadline_eq, hmin] at hd
       obtain ⟨h1, h2⟩ := (minCltv_spec _ m).1 hmin
       exact ⟨m, h1, h2, by rw [hd]; rfl⟩
+
+/-- The advertised claim window is safe, stated about the TRANSLATED `claim_deadline` expression of
+    `handle_claimable_htlc` (`MppGen.eventClaimDeadline`, regenerated from the Rust text on every run) and the
+    TRANSLATED `MppPart::check_onchain_timeout`, for ALL non-empty part lists in any order: the advertised
+    deadline is `cltv_expiry - HTLC_FAIL_BACK_BUFFER` of some part of the set, no part has a smaller one, and at every
+    height strictly below it the on-chain timeout fails NO part of the set. (A deadline taken from the first /
+    last / largest expiry instead of the minimum makes this — and `claimable_amount_deadline`,
+    `claim_before_deadline_total` through `eventClaimDeadline_eq` — stop checking.) -/
+theorem advertised_deadline_precedes_every_part_timeout (htlcs : List MppGen.PartG) (hne : htlcs ≠ []) (htlc_expiry : Nat) :
+    (∃ p ∈ htlcs, MppGen.eventClaimDeadline htlcs htlc_expiry = p.cltv_expiry - HTLC_FAIL_BACK_BUFFER) ∧
+    (∀ p ∈ htlcs, MppGen.eventClaimDeadline htlcs htlc_expiry ≤ p.cltv_expiry - HTLC_FAIL_BACK_BUFFER) ∧
+    ∀ h, h < MppGen.eventClaimDeadline htlcs htlc_expiry → ∀ p ∈ htlcs, mppOnchainTimeout h p.cltv_expiry = false := by
+  cases hmin : MppGen.eventMinCltv htlcs with
+  | none =>
+    exfalso
+    simp only [MppGen.eventMinCltv, List.min?_eq_none_iff, List.map_eq_nil_iff] at hmin
+    exact hne hmin
+  | some m =>
+    have hd : MppGen.eventClaimDeadline htlcs htlc_expiry = m - HTLC_FAIL_BACK_BUFFER := by
+      simp only [MppGen.eventClaimDeadline, hmin]
+    obtain ⟨h1, h2⟩ := List.min?_eq_some_iff.1 (by simpa only [MppGen.eventMinCltv] using hmin)
+    obtain ⟨p0, hp0, hp0e⟩ := List.mem_map.1 h1
+    have hle : ∀ p ∈ htlcs, MppGen.eventClaimDeadline htlcs htlc_expiry ≤ p.cltv_expiry - HTLC_FAIL_BACK_BUFFER := by
+      intro p hp
+      have := h2 p.cltv_expiry (List.mem_map.2 ⟨p, hp, rfl⟩)
+      rw [hd]; omega
+    refine ⟨⟨p0, hp0, by rw [hd, ← hp0e]⟩, hle, fun h hlt p hp => ?_⟩
+    have := hle p hp
+    simp only [mppOnchainTimeout, decide_eq_false_iff_not, ge_iff_le]
+    omega
+
+example : MppGen.eventClaimDeadline [⟨400, 400, 0, some 1000, 480, none⟩, ⟨600, 600, 0, some 1000, 500, none⟩] 480 = 480 - HTLC_FAIL_BACK_BUFFER ∧
+    MppGen.eventClaimDeadline [⟨600, 600, 0, some 1000, 500, none⟩, ⟨400, 400, 0, some 1000, 480, none⟩] 480 = 480 - HTLC_FAIL_BACK_BUFFER := by decide
 
 /-- A part that arrives when the held set is already complete is failed back on its own; the set
     (and its announcement) is untouched. -/
@@ -724,6 +757,67 @@ theorem part_is_check_incoming_mpp_part (s : Mpp) (p : Part) (hcl : s.claiming =
     rw [if_neg hmax, if_neg (by omega), if_neg (by omega)]
     simp
 
+/-- `handle_claimable_htlc` as a whole, for EVERY accumulator and EVERY part (no side condition): the model's
+    `part` step is the translated `MppGen.handleClaimable` — pending-claim gate, purpose test against the entry the
+    first part created, `check_merge` (payment_secret, payment_metadata, total_mpp_amount_msat, even custom TLVs),
+    then the amount decisions of `check_incoming_mpp_part` — with the same verdict, the same resulting set (up to
+    the final sort), and an event that reports the translated `amount_msat`, `counterparty_skimmed_fee_msat` and
+    `claim_deadline` of that set.  A part refused at any stage is failed back on its own and the set is untouched. -/
+theorem part_is_handle_claimable_htlc (s : Mpp) (p : Part) :
+    ∀ r, r = MppGen.handleClaimable s.claiming p.tag (if s.parts.isEmpty then p.tag else s.tag)
+        (onionOf (if s.parts.isEmpty then p.total else s.total) (if s.parts.isEmpty then p.tag else s.tag)
+          (if s.parts.isEmpty then p.evenTlv else s.evenTlv))
+        (onionOf p.total p.tag p.evenTlv) (s.parts.map Part.g) p.g →
+    (r.1 = .reject → stepPart s p = (s, [.failPart p.id])) ∧
+    (r.1 = .complete → ((stepPart s p).1.parts.map Part.g).Perm r.2 ∧
+        (stepPart s p).2 = [.claimable (MppGen.eventAmount r.2) (MppGen.eventSkim r.2)
+          (MppGen.eventClaimDeadline ((stepPart s p).1.parts.map Part.g) p.cltv)]) ∧
+    (r.1 = .hold → (stepPart s p).1.parts.map Part.g = r.2 ∧ (stepPart s p).2 = []) := by
+  intro r hr
+  obtain ⟨total, tag, ev, hfirst, hnot, heq⟩ := stepPart_normal s p
+  have hent : (if s.parts.isEmpty then p.total else s.total) = total ∧ (if s.parts.isEmpty then p.tag else s.tag) = tag ∧
+      (if s.parts.isEmpty then p.evenTlv else s.evenTlv) = ev := by
+    cases hs : s.parts with
+    | nil => obtain ⟨e1, e2, e3⟩ := hfirst hs; simp [e1, e2, e3]
+    | cons q qs => obtain ⟨e1, e2, e3⟩ := hnot (by rw [hs]; exact List.cons_ne_nil _ _); simp [e1, e2, e3]
+  obtain ⟨t1, t2, t3⟩ := hent
+  rw [t1, t2, t3] at hr
+  simp only [MppGen.handleClaimable, MppGen.pendingClaimRefuses] at hr
+  cases hcl : s.claiming with
+  | true =>
+    rw [hcl] at hr; simp only [↓reduceIte] at hr
+    subst hr
+    refine ⟨fun _ => ?_, fun h => by simp at h, fun h => by simp at h⟩
+    rw [heq]; simp [hcl]
+  | false =>
+    rw [hcl] at hr; simp only [Bool.false_eq_true, ↓reduceIte] at hr
+    by_cases hmis : (p.tag ≠ tag ∨ p.total ≠ total ∨ p.evenTlv ≠ ev)
+    · have hm := (mergeRefuses_iff total tag ev p).2 hmis
+      have hr' : r = (.reject, s.parts.map Part.g) := by
+        rw [hr]
+        rcases Bool.or_eq_true_iff.1 hm with h1 | h2
+        · simp [h1]
+        · simp [h2]
+      subst hr'
+      refine ⟨fun _ => ?_, fun h => by simp at h, fun h => by simp at h⟩
+      rw [heq]; simp [hcl, hmis]
+    · have hm : ¬ ((MppGen.purposeMismatch p.tag tag || MppGen.checkMergeErr (onionOf total tag ev) (onionOf p.total p.tag p.evenTlv)) = true) :=
+        fun h => hmis ((mergeRefuses_iff total tag ev p).1 h)
+      simp only [Bool.or_eq_true, not_or, Bool.not_eq_true] at hm
+      rw [hm.1, hm.2] at hr
+      simp only [Bool.false_eq_true, ↓reduceIte, onionOf] at hr
+      simp only [not_or, Decidable.not_not] at hmis
+      have hmm : s.parts ≠ [] → p.tag = s.tag ∧ p.total = s.total ∧ p.evenTlv = s.evenTlv := by
+        intro hne; obtain ⟨e1, e2, e3⟩ := hnot hne
+        exact ⟨hmis.1.trans e2, hmis.2.1.trans e1, hmis.2.2.trans e3⟩
+      obtain ⟨g1, g2, g3⟩ := part_is_check_incoming_mpp_part s p hcl hmm r (by rw [hr, t1])
+      refine ⟨g1, fun hc => ?_, g3⟩
+      obtain ⟨gp, d, gd⟩ := g2 hc
+      refine ⟨gp, ?_⟩
+      have hmem : Out.claimable (MppGen.eventAmount r.2) (MppGen.eventSkim r.2) d ∈ (stepPart s p).2 := by rw [gd]; simp
+      obtain ⟨_, _, _, _, _, _, _, _, _, _, _, heq2, _, _, hd⟩ := stepPart_claimable s p _ _ _ hmem
+      rw [gd, hd, heq2]
+
 /-- the model's claim loop is the translated loop of `claim_payment_internal` -/
 theorem claimLoop_translated (l : List Part) (e : Option Nat) (a : Nat) :
     InboundPay.claimLoop l e a = MppGen.claimLoop (l.map Part.g) e a := by
@@ -775,7 +869,7 @@ theorem claim_is_claim_payment_internal (s : Mpp) (known : Bool) (hne : s.parts 
   have htlv : (!known && s.evenTlv) = false := by rcases hk with rfl | hk <;> simp [*]
   have hskim : ((s.parts.map Part.g).map MppGen.claimedHtlcSkim).sum = sumSkim s.parts := by
     simp [MppGen.claimedHtlcSkim, sumSkim, Part.g, List.map_map, Function.comp_def]
-  simp only [step, stepClaim, hemp, htlv, Bool.false_eq_true, ↓reduceIte, claimLoop_translated, ← hr,
+  simp only [step, stepClaim, claimRefuses_eq, hemp, htlv, Bool.false_eq_true, ↓reduceIte, claimLoop_translated, ← hr,
     MppGen.claimNothing, MppGen.claimShort, hemp2, Bool.false_or, hskim]
   rcases hrr : r with ⟨exp, amt, valid⟩
   cases exp with
@@ -792,6 +886,29 @@ theorem claim_is_claim_payment_internal (s : Mpp) (known : Bool) (hne : s.parts 
         simp only [Nat.zero_add] at this
         simp [MppGen.claimingAmount, this, gValue]
     · cases valid <;> simp [hae]
+
+/-- the other arm of `begin_claiming_payment`: when the TRANSLATED unknown-even-TLV test fires on the entry's onion
+    fields (plain `claim_funds` on a payment carrying an even custom TLV), every held HTLC is failed back, nothing
+    is fulfilled, no claim is recorded, and the entry is gone — still all-or-nothing. -/
+theorem claim_refused_for_unknown_even_tlv (s : Mpp) (known : Bool) (hne : s.parts ≠ [])
+    (hr : MppGen.claimRefusesUnknownEven known (onionOf s.total s.tag s.evenTlv).custom_tlvs = true) :
+    step s (.claim known) = ({ s with parts := [] }, s.parts.map (fun q => Out.failPart q.id)) ∧
+    known = false ∧ s.evenTlv = true := by
+  have hemp : s.parts.isEmpty = false := by cases hs : s.parts <;> simp_all
+  refine ⟨by simp only [step, stepClaim, hemp, hr, Bool.false_eq_true, ↓reduceIte], ?_⟩
+  rw [claimRefuses_eq] at hr
+  cases known <;> cases he : s.evenTlv <;> simp_all
+
+example : MppGen.claimRefusesUnknownEven false (onionOf 1000 2 true).custom_tlvs = true ∧
+    MppGen.claimRefusesUnknownEven true (onionOf 1000 2 true).custom_tlvs = false ∧
+    MppGen.claimRefusesUnknownEven false (onionOf 1000 1 false).custom_tlvs = false := by decide
+
+example : (MppGen.handleClaimable false 1 1 (onionOf 1000 1 false) (onionOf 999 1 false) [] ⟨400, 400, 0, none, 500, none⟩).1 = .reject ∧
+    (MppGen.handleClaimable true 1 1 (onionOf 1000 1 false) (onionOf 1000 1 false) [] ⟨400, 400, 0, none, 500, none⟩).1 = .reject ∧
+    (MppGen.handleClaimable false 2 1 (onionOf 1000 1 false) (onionOf 1000 2 false) [] ⟨400, 400, 0, none, 500, none⟩).1 = .reject ∧
+    (MppGen.handleClaimable false 1 1 (onionOf 1000 1 false) (onionOf 1000 1 true) [] ⟨400, 400, 0, none, 500, none⟩).1 = .reject ∧
+    (MppGen.handleClaimable false 1 1 (onionOf 1000 1 false) (onionOf 1000 1 false) [] ⟨400, 400, 0, none, 500, none⟩).1 = .hold ∧
+    (MppGen.handleClaimable false 1 1 (onionOf 1000 1 true) (onionOf 1000 1 true) [⟨600, 600, 0, none, 480, none⟩] ⟨400, 400, 0, none, 500, none⟩).1 = .complete := by decide
 
 /-- how `process_receive_htlcs` fills in a part: `value` is the amount of the update_add_htlc,
     `sender_intended_value` the onion's amt_to_forward, the skimmed fee the message's TLV — the
@@ -976,6 +1093,41 @@ theorem claimed_amount_accounts_for_skim (s : Mpp) (hs : Reachable s) (op : Op) 
   · have : sumIntended ps ≤ sumValue ps := sum_le_of_forall ps _ _ hov
     omega
 
+/-- Front end + accumulator, composed.  `process_receive_htlcs` hands a part to `handle_claimable_htlc` only after
+    `inbound_payment::verify(hash, secret, total_msat of THIS part's onion, ..)` accepted.  If the part that completes a
+    set was so verified (for ANY crypto, keys, hash, secret, metadata, time), then for the announced PaymentClaimable
+    `{amount a, skimmed k}`:
+    * the MAC / hash equation holds for this hash and secret (authentic) and the secret had not expired;
+    * the minimum amount encoded in the secret (the invoice amount) is at most the common `total_msat` of the set,
+      which is at most Σ sender-intended — a payment is never reported claimable below the verified invoice amount;
+    * if every held part passed the translated receive-side amount test (`recvAmountTooLow`, with or without
+      `accept_underpaying_htlcs`), the invoice amount is at most `a + k`: what arrived falls short of it by at most the
+      skimmed fees the recipient was told about (and agreed to by `accept_underpaying_htlcs`);
+    * if no part is under-paid, the invoice amount is at most `a` itself. -/
+theorem claimable_never_below_verified_invoice_amount (C : PayCrypto) (k : Keys) (hash secret : Bytes) (md : Option Bytes) (now : Nat)
+    (s : Mpp) (hs : Reachable s) (id value intended : Nat) (skim : Option Nat) (total cltv tag : Nat) (ev : Bool) (a kf d : Nat)
+    (hv : ∃ r, verify C k hash secret total md now = .ok r)
+    (h : Out.claimable a kf d ∈ (step s (.part id value intended skim total cltv tag ev)).2) :
+    MacEq C k hash secret md ∧ now ≤ expiryOf C k secret ∧
+    minAmtOf C k secret ≤ total ∧
+    (∀ p ∈ (step s (.part id value intended skim total cltv tag ev)).1.parts, p.total = total) ∧
+    total ≤ sumIntended (step s (.part id value intended skim total cltv tag ev)).1.parts ∧
+    ((∀ p ∈ (step s (.part id value intended skim total cltv tag ev)).1.parts,
+        ∃ allow, MppGen.recvAmountTooLow allow p.intended p.value p.skim = false) → minAmtOf C k secret ≤ a + kf) ∧
+    ((∀ p ∈ (step s (.part id value intended skim total cltv tag ev)).1.parts, p.intended ≤ p.value) → minAmtOf C k secret ≤ a) := by
+  obtain ⟨_, hmac, hamt, hexp⟩ := (verify_accepts_iff C k hash secret total md now).1 hv
+  obtain ⟨id', value', intended', skim', total', cltv', tag', ev', hop, _, hf, hge, _, _⟩ :=
+    claimable_only_if_complete s hs _ a kf d h
+  have ht : total' = total := by cases hop; rfl
+  subst ht
+  obtain ⟨ha, _, htot, hadm, _, _⟩ := claimed_amount_accounts_for_skim s hs _ a kf d h
+  refine ⟨hmac, hexp, hamt, fun p hp => (hf p hp).1, hge, fun hall => ?_, fun hall => ?_⟩
+  · have := (hadm hall).1
+    omega
+  · have : sumIntended (step s (.part id value intended skim total' cltv tag ev)).1.parts ≤
+        sumValue (step s (.part id value intended skim total' cltv tag ev)).1.parts := sum_le_of_forall _ _ _ hall
+    omega
+
 /-! ## non-vacuity: concrete instances of every hypothesis and outcome used above -/
 
 /-- a toy `PayCrypto` that satisfies `Wf` (only for non-vacuity; the driver uses the real primitives) -/
@@ -1011,6 +1163,17 @@ example :
         errIs (verify toyCrypto toyKeys h sec 1000 md (1700000000 + 3600 + 7201)) .expired &&
         errIs (verify toyCrypto toyKeys (0 :: h) sec 1000 md 1700000000) .badMac &&
         errIs (verify toyCrypto toyKeys (0 :: h) sec 0 md (2 ^ 60)) .badMac) = true := by decide
+
+-- hypotheses of claimable_never_below_verified_invoice_amount: a created secret verifies for total_msat 1000 and the part
+-- carrying that total completes a set
+example :
+    (create toyCrypto toyKeys (some 1000) 3600 (List.replicate 16 7) 1700000000 (some 18) none).any
+      (fun (h, sec, md) => (match verify toyCrypto toyKeys h sec 1000 md 1700000000 with | .ok _ => true | .error _ => false)) = true ∧
+    Out.claimable 990 10 441 ∈ (step (step Mpp.init (.part 2 600 600 none 1000 500 1 false)).1 (.part 1 390 400 (some 10) 1000 480 1 false)).2 := by
+  decide
+-- fail-back reasons per site (translated constants)
+example : stepWhy Mpp.init .tick = .mPPTimeout ∧ stepWhy Mpp.init (.block 5) = .paymentClaimBuffer ∧
+    stepWhy { Mpp.init with evenTlv := true } (.claim false) = .invalidOnionPayload ∧ stepWhy Mpp.init .failBack = .incorrectPaymentDetails := by decide
 
 -- the accumulator: two parts complete a 1000-msat payment (deadline = min cltv − 39), blocks below
 -- the deadline change nothing, the claim fulfils both parts
